@@ -913,6 +913,11 @@ func (g *G) mapStmt() {
 		g.line("%s[%s] = %s", name, k, e)
 	case 2:
 		g.line("delete(%s, %s)", name, k)
+		if g.r.Bool() {
+			// delete, then insert the same key again: it is one key afterwards
+			e, _ := g.expr(m.T.Elem, 1)
+			g.line("%s[%s] = %s", name, k, e)
+		}
 	case 3:
 		v, ok := g.name("v"), g.name("ok")
 		g.line("%s, %s := %s[%s]", v, ok, name, k)
